@@ -30,6 +30,7 @@ type Stmt struct {
 	SM      string    `json:"sm,omitempty"`  // state machine built with StateMachineActions on this menu type
 	Raw     []byte    `json:"raw,omitempty"` // log: payload (repeated Rep times) instead of the synthetic one
 	Rep     int       `json:"rep,omitempty"`
+	Shared  bool      `json:"shared,omitempty"` // repeat: one actions map for all invocations
 	Empty   bool      `json:"empty,omitempty"` // sig: signalled with an empty message (t.Error(), t.Errorf(""), panic(""))
 }
 
@@ -155,6 +156,7 @@ type Interp struct {
 	cur      *Invocation
 	nextID   int
 	actCount int
+	shared   map[*Stmt]*sharedActions
 }
 
 type harnessAbort struct{ why string }
@@ -652,6 +654,28 @@ func (x *Interp) runCustom(s *GenSpec, subs map[*GenSpec]*rapid.Generator[any], 
 
 func (x *Interp) repeat(fr *frame, st *Stmt) {
 	t := fr.sc.t
+	if st.Shared && st.SM == "" {
+		// the actions map is built once and handed to Repeat by every invocation, like a map a user keeps in a
+		// variable outside the property function
+		sh := x.shared[st]
+		if sh == nil {
+			sh = &sharedActions{actions: map[string]func(*rapid.T){}}
+			for _, a := range st.Actions {
+				a := a
+				sh.actions[a.Name] = func(at *rapid.T) { x.runAction(sh.fr, a, at) }
+			}
+			if st.HasInv {
+				sh.actions[""] = func(at *rapid.T) { x.runInv(sh.fr, st, at) }
+			}
+			if x.shared == nil {
+				x.shared = map[*Stmt]*sharedActions{}
+			}
+			x.shared[st] = sh
+		}
+		sh.fr = fr
+		t.Repeat(sh.actions)
+		return
+	}
 	actions := map[string]func(*rapid.T){}
 	for _, a := range st.Actions {
 		a := a
@@ -670,6 +694,11 @@ func (x *Interp) repeat(fr *frame, st *Stmt) {
 		actions = smActions(st.SM, actions, func(name string) { x.ev(Event{K: "bogus", Name: name}) })
 	}
 	t.Repeat(actions)
+}
+
+type sharedActions struct {
+	actions map[string]func(*rapid.T)
+	fr      *frame
 }
 
 func (x *Interp) runAction(fr *frame, a *Action, at *rapid.T) {
